@@ -45,6 +45,8 @@ type c16Case struct {
 	Mid string `json:"mid,omitempty"`
 	// MidStep: at which challenge (1-based) the action happens.
 	MidStep int `json:"mid_step,omitempty"`
+	// Prompts (LOGIN): the server's wording of its two prompts, "first|second" ("" = Username:|Password:).
+	Prompts string `json:"prompts,omitempty"`
 }
 
 // midAuth wraps an smtp.Auth and runs a hook when the first challenge arrives, i.e. between two
@@ -109,6 +111,9 @@ func c16Run(c c16Case) []*core.Violation {
 		handler = refsasl.Plain(acc, res)
 	case wire == "LOGIN":
 		handler = refsasl.Login(acc, res)
+		if p1, p2, ok := strings.Cut(c.Prompts, "|"); ok {
+			handler = refsasl.LoginPrompts(acc, res, p1, p2)
+		}
 	case wire == "CRAM-MD5":
 		handler = refsasl.CramMD5(acc, "<4711.1234567@ref.verif.example>", res)
 	case wire == "XOAUTH2":
@@ -225,13 +230,16 @@ func c16Run(c c16Case) []*core.Violation {
 			case "debugon":
 				a = &midAuth{Auth: a, at: max(c.MidStep, 1), hook: func() { sc.SetDebugLog(true); debugWasOn = true }}
 			}
-			if dialErr = sc.Auth(a); dialErr != nil {
-				return nil
-			}
+			dialErr = sc.Auth(a)
+			// whether or not the exchange succeeded, the application goes on using the connection as
+			// long as it works (a failed exchange whose error came from reading the reply sends no QUIT)
 			if c.SendMsg {
 				if sendErr = sc.Mail(marker + "@sender.verif.example"); sendErr == nil {
 					_ = sc.Reset()
 				}
+			}
+			if dialErr != nil {
+				_ = sc.Noop()
 			}
 			_ = sc.Quit()
 			return nil
@@ -370,12 +378,17 @@ func c16Run(c c16Case) []*core.Violation {
 		}
 	}
 	// the redaction window closes again
-	if c.SendMsg && dialErr == nil && debugWasOn {
+	if c.SendMsg && (dialErr == nil || c.Direct) && debugWasOn && c.Mid != "close" {
 		mailSeen := false
 		for _, t := range sess.Txns {
 			if strings.Contains(t.From, marker) {
 				mailSeen = true
 			}
+		}
+		// direct mode: the line went over the wire (whatever the server took it for), so the client
+		// has written it outside any exchange
+		if c.Direct && dialErr != nil && bytes.Contains(sess.Cleartext, []byte("MAIL FROM:<"+marker)) {
+			mailSeen = true
 		}
 		if mailSeen {
 			if _, ok := find(marker); !ok {
@@ -409,7 +422,7 @@ func c16Run(c c16Case) []*core.Violation {
 		rec.Class("exchange:ok")
 	}
 	if responses >= 2 || abnormal {
-		rec.NonTrivial(core.Join(c.Mech, c.TLS, c.Wrong, strings.Join(keys, ","), c.Extra, c.Logger, c.SendMsg, c.Direct, c.NoHello, c.Mid, c.MidStep, core.Hash(c.Pass)))
+		rec.NonTrivial(core.Join(c.Mech, c.TLS, c.Wrong, strings.Join(keys, ","), c.Extra, c.Logger, c.SendMsg, c.Direct, c.NoHello, c.Mid, c.MidStep, c.Prompts, core.Hash(c.Pass)))
 		rec.Sample(c.Mech+"/"+c.Logger+fmt.Sprint(abnormal), map[string]interface{}{"mech": c.Mech, "tls": c.TLS, "wrong_password": c.Wrong, "faults": keys, "extra_challenge": c.Extra, "logger": c.Logger, "log_records": nrecs, "secret_lines_checked": len(secretLines), "dial_error": fmt.Sprint(dialErr), "send_error": fmt.Sprint(sendErr)})
 	}
 	return vs
@@ -444,8 +457,11 @@ func c16Gen(t *rapid.T) c16Case {
 		c.MidStep = rapid.IntRange(1, 2).Draw(t, "midstep")
 		c.Mech = strings.TrimSuffix(c.Mech, "-NOENC")
 	}
+	if strings.HasPrefix(c.Mech, "LOGIN") {
+		c.Prompts = rapid.SampledFrom([]string{"", "", "Username:|Username:", "User Name|User Password", "username:|userpassword:", "Login:|Secret:", "|", "User:|user secret"}).Draw(t, "prompts")
+	}
 	c.Steps = map[string]refsmtp.Outcome{}
-	switch rapid.IntRange(0, 9).Draw(t, "script") {
+	switch rapid.IntRange(0, 10).Draw(t, "script") {
 	case 0:
 		c.Steps["auth#1"] = refsmtp.Outcome{Kind: "reply", Code: 535, Text: "5.7.8 no"}
 	case 1:
@@ -464,6 +480,9 @@ func c16Gen(t *rapid.T) c16Case {
 	case 6: // the challenge is sent, then the connection is closed: the client's write of its response fails
 		k := rapid.IntRange(1, 3).Draw(t, "dropafterstep")
 		c.Steps[fmt.Sprintf("authstep#%d", k)] = refsmtp.Outcome{Kind: "dropafter"}
+	case 8: // an unparsable reply line inside the exchange: reading it fails, the connection survives
+		k := rapid.IntRange(1, 3).Draw(t, "badreplystep")
+		c.Steps[fmt.Sprintf("authstep#%d", k)] = refsmtp.Outcome{Kind: "reply", Code: 33, Text: "short"}
 	case 7: // the connection is closed right after the EHLO reply: the AUTH command itself (with an initial response) cannot be written
 		if c.TLS == "none" {
 			c.Steps["ehlo#1"] = refsmtp.Outcome{Kind: "dropafter", Code: 250, Text: "ref.verif.example\n8BITMIME\nAUTH " + strings.TrimSuffix(c.Mech, "-NOENC")}
@@ -474,8 +493,8 @@ func c16Gen(t *rapid.T) c16Case {
 
 func TestC16(t *testing.T) {
 	rec := core.Rec("C16")
-	rec.Rule = "the real Client with WithDebugLog (auth-data logging not enabled) authenticates against the reference SASL servers with mechanisms {PLAIN, LOGIN (NOENC and over TLS), CRAM-MD5, XOAUTH2, SCRAM-SHA-1/-256 and PLUS over TLS 1.2/1.3}, random alphanumeric passwords/tokens of 12..40 characters, right or wrong password, and server scripts {success, 535 to the AUTH command, 535 / non-base64 challenge / disconnect at exchange step 1..3, unexpected extra challenge, disconnect at AUTH, disconnect right after a challenge or right after the EHLO reply so that the client's write of the secret-bearing line fails}; loggers: a capturing log.Logger, log.New (text) and log.NewJSON; optionally followed by a MAIL/RCPT/DATA transaction; one case in four (of the non-TLS ones) drives the exported smtp.Client API directly (NewClient, SetLogger, SetDebugLog, Auth with or without a prior Hello, Mail, Quit), optionally with Client.Close() or SetDebugLog(true) happening between two steps of the exchange. " +
-		"Oracle: no log record (each Messages element, the formatted record, the stock loggers' bytes, every JSON string value) contains the password/token raw, in hex, or in base64 at any of the three alignments, nor any SASL response line that carries the secret or a proof derived from it (as recorded by the server); and the MAIL FROM line sent after authentication appears in the log (redaction window closed). " +
+	rec.Rule = "the real Client with WithDebugLog (auth-data logging not enabled) authenticates against the reference SASL servers with mechanisms {PLAIN, LOGIN (NOENC and over TLS), CRAM-MD5, XOAUTH2, SCRAM-SHA-1/-256 and PLUS over TLS 1.2/1.3}, random alphanumeric passwords/tokens of 12..40 characters, right or wrong password, and server scripts {success, 535 to the AUTH command, 535 / non-base64 challenge / unparsable reply line / disconnect at exchange step 1..3, LOGIN servers with their own wording of the two prompts (incl. the same prompt twice), unexpected extra challenge, disconnect at AUTH, disconnect right after a challenge or right after the EHLO reply so that the client's write of the secret-bearing line fails}; loggers: a capturing log.Logger, log.New (text) and log.NewJSON; optionally followed by a MAIL/RCPT/DATA transaction; one case in four (of the non-TLS ones) drives the exported smtp.Client API directly (NewClient, SetLogger, SetDebugLog, Auth with or without a prior Hello, Mail, Quit), optionally with Client.Close() or SetDebugLog(true) happening between two steps of the exchange. " +
+		"Oracle: no log record (each Messages element, the formatted record, the stock loggers' bytes, every JSON string value) contains the password/token raw, in hex, or in base64 at any of the three alignments, nor any SASL response line that carries the secret or a proof derived from it (as recorded by the server); and the MAIL FROM line sent after authentication - in direct mode also after a FAILED exchange that left the connection usable - appears in the log (redaction window closed). " +
 		"Non-trivial: >= 2 client responses in the exchange or an abnormal end. Distinct by (mechanism, TLS, wrong password, script, logger, transaction, password)."
 	rec.Assumptions = []string{"passwords are alphanumeric so that JSON escaping cannot hide them", "the user name and the mechanism name are not secrets"}
 	core.Prop[c16Case]{ID: "C16", Test: "TestC16", Gen: c16Gen, Run: c16Run}.Check(t)
